@@ -502,7 +502,8 @@ def check_case(case, ctx):
 
     # ---------------- DNS round trip
     if case["family"] == "dns" and str(vname).lower() == "dns" and ok_render and case["view"] in ("dns", "auto"):
-        data = bytes(msg.content)   # what the view actually saw (text frames are valid UTF-8, DNS messages are re-packed)
+        from mitmproxy.contentviews._utils import get_data as _get_data
+        data = bytes(_get_data(msg)[0])   # what the view actually saw (text frames are valid UTF-8, DNS messages are re-packed)
         tcp_framed = case["msg"] == "tcp"
         wire = data[2:] if tcp_framed else data
         try:
